@@ -180,6 +180,10 @@ func (commander *Commander) CreateTransaction(ctx context.Context, parameters Pa
 		return nil, err
 	}
 
+	if parameters.DryRun {
+		return log.Data.(ledger.NewTransactionLogPayload).Transaction, nil
+	}
+
 	commander.monitor.CommittedTransactions(ctx, *log.Data.(ledger.NewTransactionLogPayload).Transaction, log.Data.(ledger.NewTransactionLogPayload).AccountMetadata)
 
 	return log.Data.(ledger.NewTransactionLogPayload).Transaction, nil
@@ -224,6 +228,10 @@ func (commander *Commander) SaveMeta(ctx context.Context, parameters Parameters,
 		return err
 	}
 
+	if parameters.DryRun {
+		return nil
+	}
+
 	commander.monitor.SavedMetadata(ctx, targetType, fmt.Sprint(targetID), m)
 	return nil
 }
@@ -261,6 +269,10 @@ func (commander *Commander) RevertTransaction(ctx context.Context, parameters Pa
 		})
 	if err != nil {
 		return nil, err
+	}
+
+	if parameters.DryRun {
+		return log.Data.(ledger.RevertedTransactionLogPayload).RevertTransaction, nil
 	}
 
 	commander.monitor.RevertedTransaction(ctx, log.Data.(ledger.RevertedTransactionLogPayload).RevertTransaction, transactionToRevert)
@@ -334,6 +346,10 @@ func (commander *Commander) DeleteMetadata(ctx context.Context, parameters Param
 	})
 	if err != nil {
 		return err
+	}
+
+	if parameters.DryRun {
+		return nil
 	}
 
 	commander.monitor.DeletedMetadata(ctx, targetType, targetID, key)
